@@ -67,6 +67,15 @@ class Nest(betterproto.Message):
 
 
 @dataclass(eq=False, repr=False)
+class Solo(betterproto.Message):
+    """oneof groups with exactly ONE member each (legal, and how proto3 optional fields look in a descriptor)"""
+    only: int = betterproto.int32_field(1, group="g")
+    word: str = betterproto.string_field(2, group="h")
+    plain: int = betterproto.int32_field(3)
+    sub: "Leaf" = betterproto.message_field(4, group="k")
+
+
+@dataclass(eq=False, repr=False)
 class Mid(betterproto.Message):
     leaf: "Leaf" = betterproto.message_field(1)
     name: str = betterproto.string_field(2)
@@ -190,8 +199,9 @@ SCHEMA = {
                ("leaf", 4, "message", "pick", "Leaf")],
     "Mid": [("leaf", 1, "message", "", "Leaf"), ("name", 2, "string", "", None), ("pick", 3, "message", "", "Choice")],
     "Hollow": [],
+    "Solo": [("only", 1, "int32", "g", None), ("word", 2, "string", "h", None), ("plain", 3, "int32", "", None), ("sub", 4, "message", "k", "Leaf")],
 }
-CLASSES = {"Leaf": Leaf, "Choice": Choice, "Mid": Mid, "Hollow": Hollow, "Deep": Deep, "High": High, "Wide": Wide}
+CLASSES = {"Leaf": Leaf, "Choice": Choice, "Mid": Mid, "Hollow": Hollow, "Deep": Deep, "High": High, "Wide": Wide, "Solo": Solo}
 
 
 # ------------------------------------------------------------------------------------------------ reference classes
@@ -610,6 +620,12 @@ def instances(rnd, n):
         out.append((f"Deep(r_choice=[{t}])", lambda f=f: Deep(r_choice=[f()])))
         out.append((f"Deep(m_choice={{'k': {t}}})", lambda f=f: Deep(m_choice={"k": f()})))
         out.append((f"Deep(mid=Mid(pick={t}))", lambda f=f: Deep(mid=Mid(pick=f()))))
+    # several members of one group handed to the constructor (the last one in field order is the selected one; the
+    # earlier values stay behind in their slots, unselected)
+    out.append(("Deep(one=Choice(count=300, label='hello'))", lambda: Deep(one=Choice(count=300, label="hello"))))
+    out.append(("Deep(r_choice=[Choice(count=1, flag=True, leaf=Leaf(n=2))])", lambda: Deep(r_choice=[Choice(count=1, flag=True, leaf=Leaf(n=2))])))
+    out.append(("Deep(mid=Mid(pick=Choice(label='a', count=0)))", lambda: Deep(mid=Mid(pick=Choice(label="a", count=0)))))
+    out.append(("Deep(m_choice={'k': Choice(count=7, label='', flag=False)})", lambda: Deep(m_choice={"k": Choice(count=7, label="", flag=False)})))
     out.append(("Deep(r_choice=[Choice(count=0), Choice(), Choice(label='')])", lambda: Deep(r_choice=[Choice(count=0), Choice(), Choice(label="")])))
     out.append(("Deep(m_choice={'': Choice(flag=False), 'b': Choice(count=1)})", lambda: Deep(m_choice={"": Choice(flag=False), "b": Choice(count=1)})))
     for t, f in hollows():
@@ -642,6 +658,20 @@ def instances(rnd, n):
     out.append(("Deep(w_u64=0)", lambda: Deep(w_u64=0)))
     out.append(("Deep(w_u64=2**64-1)", lambda: Deep(w_u64=2**64 - 1)))
     out.append(("Deep().parse(rw_i64 = [default element, 7])", lambda: Deep().parse(bytes.fromhex("6a006a020807"))))
+    # the small classes on their own (top level): every choice, several members at once, one-member groups
+    for t, f in choices()[1:]:
+        out.append((t, f))
+    out.append(("Choice(count=300, label='hello')", lambda: Choice(count=300, label="hello")))
+    out.append(("Choice(count=1, flag=True, leaf=Leaf(n=2))", lambda: Choice(count=1, flag=True, leaf=Leaf(n=2))))
+    out.append(("Choice(label='', count=0)", lambda: Choice(label="", count=0)))
+    out.append(("copy.deepcopy(Choice(count=300, label='hello'))", lambda: copy.deepcopy(Choice(count=300, label="hello"))))
+    for t, f in (("Solo()", lambda: Solo()), ("Solo(only=0)", lambda: Solo(only=0)), ("Solo(only=5, word='')", lambda: Solo(only=5, word="")),
+                 ("Solo(word='w', plain=3)", lambda: Solo(word="w", plain=3)), ("Solo(sub=Leaf())", lambda: Solo(sub=Leaf())),
+                 ("s = Solo(); s.only = 0", lambda: _assign(Solo(), "only", 0)), ("s = Solo(); s.word = 'x'", lambda: _assign(Solo(), "word", "x")),
+                 ("s = Solo(); s.sub = Leaf(n=1)", lambda: _assign(Solo(), "sub", Leaf(n=1))),
+                 ("Solo().parse(only=0, word='')", lambda: Solo().parse(bytes.fromhex("08001200"))), ("Solo().from_dict({'only': 0})", lambda: Solo().from_dict({"only": 0})),
+                 ("Solo.from_dict({'word': 'x', 'plain': 2})", lambda: Solo.from_dict({"word": "x", "plain": 2}))):
+        out.append((t, f))
     out += wide_instances()
     out += scale_instances()
     out += history_instances(rnd, max(20, n // 5))
@@ -1104,6 +1134,267 @@ def decodes_after_failures(col):
             col.fail("valid-encoding-rejected", how, f"{x[0]}: {x[1]}")
 
 
+def scalar_encodings_vs_reference(col):
+    """C16 / C02: a single-field message of each of the 15 scalar kinds encodes byte for byte like the reference, for the
+    boundary values of the kind - including, for float fields, doubles that are not float32 values (they round: the usual
+    FLT_MAX literal 3.4028235e38, the largest double that still rounds to a finite float32, 0.1, 2**24+1, an underflow)"""
+    from . import corpus as C
+    for f in C.SCHEMAS[C.Scalars]:
+        if f.kind == "enum":
+            continue
+        vals = [v.make() for v in C.pool(f.elem_kind)]
+        if f.kind == "float":
+            vals += list(C._FLOAT32_ROUNDING)
+        for v in vals:
+            if isinstance(v, float) and v == 0 and math.copysign(1, v) < 0:
+                continue        # -0.0 in an implicit-presence field: emitting it is allowed, not required (C06 relation)
+            how = f"Scalars({f.name}={v!r})"
+            col.cases += 1
+            col.distinct.add(how)
+            r = C.reference_class(C.Scalars)()
+            try:
+                setattr(r, f.name, v)
+                rb = r.SerializeToString(deterministic=True)
+            except Exception as e:
+                col.fail("harness:reference-rejects-scalar", how, repr(e)[:200])
+                continue
+            b = guard(col, "encode-scalar", how, lambda: bytes(C.Scalars(**{f.name: v})))
+            if b is None:
+                continue
+            if b != rb:
+                col.fail("scalar-encoding-differs-from-reference:" + f.kind, how, f"ours {b.hex()} reference {rb.hex()}")
+            n = guard(col, "len-scalar", how, lambda: len(C.Scalars(**{f.name: v})))
+            if n is not None and n != len(rb):
+                col.fail("scalar-len-differs-from-reference:" + f.kind, how, f"len {n}, reference writes {len(rb)} bytes")
+
+
+def _sample_values(m, name):
+    """(default, non-default) values for a oneof member, chosen from the type of its default"""
+    d = m._get_field_default(name)
+    if isinstance(d, bool):
+        return [False, True]
+    if isinstance(d, betterproto.Enum):
+        return [type(d).try_value(0), type(d).try_value(1)]
+    if isinstance(d, int):
+        return [0, 5]
+    if isinstance(d, float):
+        return [0.0, 1.5]
+    if isinstance(d, str):
+        return ["", "x"]
+    if isinstance(d, bytes):
+        return [b"", b"\x01"]
+    if isinstance(d, datetime):
+        return [EPOCH, EPOCH + timedelta(seconds=1, microseconds=5)]
+    if isinstance(d, timedelta):
+        return [timedelta(0), timedelta(microseconds=-500000)]
+    if isinstance(d, betterproto.Message):
+        return [type(d)(), type(d)().parse(bytes(type(d)(**{type(d)._betterproto.sorted_field_names[0]: 3})) if type(d)._betterproto.sorted_field_names else b"")]
+    if d is None:           # wrapper-typed / optional-style member
+        meta = m._betterproto.meta_by_field_name[name]
+        if meta.wraps:
+            return [0, -7]
+        return [0, 5] if meta.proto_type.endswith(("32", "64")) else (["", "x"] if meta.proto_type == "string" else ([False, True] if meta.proto_type == "bool" else []))
+    return []
+
+
+def oneof_protocol(col):
+    """C07 / C06: for every class with oneof groups (one-member groups included), every member x {default, non-default}:
+    assigning it to a fresh message, to a message where another member (or the same one) is selected, or decoding it,
+    makes it THE selected member: which_one_of names it with that value, it reads back, every other member of the group
+    raises AttributeError, the encoding is the reference's for the same assignments"""
+    for cname, cls in (("Choice", Choice), ("Solo", Solo), ("Wide", Wide), ("High", High)):
+        proto = cls()
+        meta = proto._betterproto
+        groups = {}
+        for name in meta.sorted_field_names:
+            g = meta.meta_by_field_name[name].group
+            if g:
+                groups.setdefault(g, []).append(name)
+        for g, members in groups.items():
+            for name in members:
+                for value in _sample_values(proto, name):
+                    starts = [("fresh", lambda: cls())]
+                    for other in members:
+                        ov = _sample_values(proto, other)
+                        if ov:
+                            starts.append((f"after {other}={ov[-1]!r}", lambda other=other, ov=ov: _assign(cls(), other, ov[-1])))
+                    for sname, start in starts:
+                        how = f"m = {cname}() [{sname}]; m.{name} = {value!r}"
+                        col.cases += 1
+                        col.distinct.add(how)
+                        m = guard(col, "assign", how, lambda: _assign(start(), name, value))
+                        if m is None:
+                            continue
+                        sel = guard(col, "which_one_of", how, lambda: betterproto.which_one_of(m, g))
+                        if sel is None:
+                            continue
+                        if sel[0] != name:
+                            col.fail("assigned-member-is-not-the-selected-one", how, f"which_one_of(m, {g!r}) = {sel!r}")
+                            continue
+                        try:
+                            got = getattr(m, name)
+                            if not (got == value or (isinstance(value, float) and value != value)):
+                                col.fail("selected-member-reads-another-value", how, f"{got!r}")
+                        except Exception as e:
+                            col.fail("selected-member-not-readable", how, repr(e)[:150])
+                        for other in members:
+                            if other == name:
+                                continue
+                            try:
+                                getattr(m, other)
+                                col.fail("other-member-readable-after-assignment", how, f"reading {other!r} did not raise")
+                            except AttributeError:
+                                pass
+                        b = guard(col, "encode", how, lambda: bytes(m))
+                        if b is None:
+                            continue
+                        try:
+                            rb = to_ref(m).SerializeToString(deterministic=True)
+                            r2 = ref(cname)()
+                            r2.ParseFromString(b)
+                        except Exception as e:
+                            col.fail("harness:to_ref", how, repr(e)[:200])
+                            continue
+                        if r2.WhichOneof(g) != name:
+                            col.fail("encoding-does-not-carry-the-assigned-member", how, f"bytes {b.hex()}: reference sees {r2.WhichOneof(g)!r}")
+                        elif r2.SerializeToString(deterministic=True) != rb:
+                            col.fail("encoding-after-assignment-differs-from-reference", how, f"ours {b.hex()} reference {rb.hex()}")
+                        back = guard(col, "decode", how, lambda: cls().parse(b))
+                        if back is not None and betterproto.which_one_of(back, g)[0] != name:
+                            col.fail("decoded-member-is-not-the-selected-one", how, f"{betterproto.which_one_of(back, g)!r}")
+                        if len(m) != len(b):
+                            col.fail("len-after-assignment-differs", how, f"len {len(m)} bytes {len(b)}")
+
+
+def oneof_wire_sequences(col):
+    """C02 / C06 / C07: an encoding in which members of one oneof group occur several times in any order (what
+    concatenating / merging encodings produces): the member that occurs LAST is the selected one, with the reference's
+    value; every sequence of up to three occurrences over default and non-default values of all members"""
+    recs = [("count=0", "0800"), ("count=5", "0805"), ("label=''", "1200"), ("label='x'", "120178"), ("flag=False", "1800"),
+            ("flag=True", "1801"), ("leaf={}", "2200"), ("leaf={n:3}", "22020803")]
+    seqs = [[a] for a in recs] + [[a, b] for a in recs for b in recs] + [[a, b, c] for a in recs for b in recs for c in recs]
+    for seq in seqs:
+        data = bytes.fromhex("".join(h for _, h in seq))
+        how = "Choice().parse(<" + ", ".join(n for n, _ in seq) + ">)"
+        col.cases += 1
+        if len(seq) < 3:
+            col.distinct.add(how)
+        r = ref("Choice")()
+        r.ParseFromString(data)
+        m = guard(col, "decode", how, lambda: Choice().parse(data))
+        if m is None:
+            continue
+        sel = betterproto.which_one_of(m, "pick")[0]
+        if sel != (r.WhichOneof("pick") or ""):
+            col.fail("oneof-occurring-several-times-selects-another-member-than-the-reference", how, f"ours {sel!r} reference {r.WhichOneof('pick')!r}")
+            continue
+        if len(seq) > 1 and seq[-1][0].startswith("leaf") and seq[-2][0].startswith("leaf"):
+            continue    # the same MESSAGE member twice in a row: the reference merges the two, "last one wins" (C02) does not ask for that
+        b = guard(col, "encode", how, lambda: bytes(m))
+        if b is not None and b != r.SerializeToString(deterministic=True):
+            col.fail("oneof-occurring-several-times-decodes-to-another-value", how, f"ours re-encodes {b.hex()} reference {r.SerializeToString(deterministic=True).hex()}")
+
+
+def groups_in_frames(col):
+    """C17 / C10: a (proto2) group - start-group tag, optional content, matching end-group tag - among the fields of a
+    message: the decoder may reject the input, but if it accepts it the known fields have the values the reference
+    decodes, and inside a delimited frame it consumes exactly the frame (the next frame reads back intact)"""
+    groups = [("empty group 5", "2b2c"), ("group 5 with a varint", "2b08012c"), ("group 5 with a string and a nested group 6", "2b12026869333408092c".replace("3334", "3334")),
+              ("group 300", "e312" + "0807" + "e412")]
+    knowns = [("count=1", "0801"), ("label='ab'", "12026162"), ("leaf={n:3}", "22020803")]
+    for gname, ghex in groups:
+        for kname, khex in knowns:
+            for order in ("group-first", "group-last", "between"):
+                body = {"group-first": ghex + khex, "group-last": khex + ghex, "between": khex + ghex + "1801"}[order]
+                data = bytes.fromhex(body)
+                how = f"Choice: {kname} with {gname} ({order})"
+                col.cases += 1
+                col.distinct.add(how)
+                r = ref("Choice")()
+                try:
+                    r.ParseFromString(data)
+                except Exception:
+                    continue            # not well-formed for the reference either
+                r.DiscardUnknownFields()
+                want = r.SerializeToString(deterministic=True)
+                try:
+                    m = Choice().parse(data)
+                    if bytes(strip_unknown(Choice().parse(data))) != want:
+                        col.fail("group-alters-known-fields", how, f"known fields {bytes(strip_unknown(m)).hex()} reference {want.hex()}")
+                except Exception:
+                    pass
+                nxt = bytes(Choice(count=77))
+                # a message of known size followed directly by the next one (load(stream, size=n))
+                for follow in (nxt, bytes.fromhex("0807"), bytes.fromhex("120178")):
+                    st2 = io.BytesIO(data + follow)
+                    try:
+                        sized = Choice().load(st2, len(data))
+                    except Exception:
+                        continue
+                    if bytes(strip_unknown(sized)) != want:
+                        col.fail("group-in-a-sized-load-alters-known-fields", how, f"followed by {follow.hex()}: known fields {bytes(strip_unknown(sized)).hex()} reference {want.hex()}")
+                    elif st2.tell() != len(data):
+                        col.fail("group-in-a-sized-load-misleads-the-byte-accounting", how, f"consumed {st2.tell()} of {len(data)} bytes")
+                stream = io.BytesIO(betterproto.encode_varint(len(data)) + data + betterproto.encode_varint(len(nxt)) + nxt)
+                try:
+                    first = Choice().load(stream, betterproto.SIZE_DELIMITED)
+                except Exception:
+                    continue
+                if bytes(strip_unknown(first)) != want:
+                    col.fail("group-in-a-frame-alters-known-fields", how, f"known fields {bytes(strip_unknown(first)).hex()} reference {want.hex()}")
+                if stream.tell() != 1 + len(data):
+                    col.fail("group-in-a-frame-misleads-the-byte-accounting", how, f"consumed {stream.tell()} bytes, the frame ends at {1 + len(data)}")
+                    continue
+                second = guard(col, "load-next-frame", how, lambda: Choice().load(stream, betterproto.SIZE_DELIMITED))
+                if second is not None and bytes(second) != nxt:
+                    col.fail("frame-after-a-group-read-differently", how, f"{bytes(second).hex()} expected {nxt.hex()}")
+
+
+def eq_soundness(col):
+    """C01 / C14: == is not merely reflexive - messages whose field VALUES differ compare unequal, also when NaN is
+    involved (differences that == does not look at on the unchanged tree - which default-valued member of a oneof is
+    selected, unknown fields - are deliberately not asked for: no listed property states them); also when NaN is
+    involved (the NaN-aware comparison looks into lists and maps: a prefix, an extra entry, another key or another
+    element next to a NaN must still make a difference)"""
+    nan = float("nan")
+    pairs = [
+        ("r_d [nan] vs [nan, 1.0]", lambda: Deep(r_d=[nan]), lambda: Deep(r_d=[nan, 1.0])),
+        ("r_d [nan, 1.0] vs [nan]", lambda: Deep(r_d=[nan, 1.0]), lambda: Deep(r_d=[nan])),
+        ("r_d [nan, 1.0] vs [nan, 2.0]", lambda: Deep(r_d=[nan, 1.0]), lambda: Deep(r_d=[nan, 2.0])),
+        ("r_d [1.0, nan] vs [2.0, nan]", lambda: Deep(r_d=[1.0, nan]), lambda: Deep(r_d=[2.0, nan])),
+        ("r_d [nan] vs []", lambda: Deep(r_d=[nan]), lambda: Deep(r_d=[])),
+        ("r_d [nan] vs [1.0]", lambda: Deep(r_d=[nan]), lambda: Deep(r_d=[1.0])),
+        ("m_d {a: nan} vs {a: nan, b: 1.0}", lambda: Deep(m_d={"a": nan}), lambda: Deep(m_d={"a": nan, "b": 1.0})),
+        ("m_d {a: nan, b: 1.0} vs {a: nan}", lambda: Deep(m_d={"a": nan, "b": 1.0}), lambda: Deep(m_d={"a": nan})),
+        ("m_d {a: nan} vs {b: nan}", lambda: Deep(m_d={"a": nan}), lambda: Deep(m_d={"b": nan})),
+        ("m_d {a: nan, b: 1.0} vs {a: nan, b: 2.0}", lambda: Deep(m_d={"a": nan, "b": 1.0}), lambda: Deep(m_d={"a": nan, "b": 2.0})),
+        ("m_f {0: nan} vs {0: nan, 5: nan}", lambda: Deep(m_f={0: nan}), lambda: Deep(m_f={0: nan, 5: nan})),
+        ("rw_double [nan] vs [nan, nan]", lambda: Deep(rw_double=[nan]), lambda: Deep(rw_double=[nan, nan])),
+        ("rw_double [nan, None] vs [nan, 0.0]", lambda: Deep(rw_double=[nan, None]), lambda: Deep(rw_double=[nan, 0.0])),
+        ("nan in r_d, other field differs", lambda: Deep(r_d=[nan], mid=Mid(name="a")), lambda: Deep(r_d=[nan], mid=Mid(name="b"))),
+        ("nan in nested list element", lambda: Deep(r_choice=[Choice(count=1)], r_d=[nan]), lambda: Deep(r_choice=[Choice(count=2)], r_d=[nan])),
+        ("o_f32 nan vs None", lambda: Wide(o_f32=nan), lambda: Wide(o_f32=None)),
+        ("o_f32 nan vs 0.0", lambda: Wide(o_f32=nan), lambda: Wide(o_f32=0.0)),
+        ("plain: count 1 vs 2", lambda: Choice(count=1), lambda: Choice(count=2)),
+        ("plain: r_d [1.0] vs [1.0, 1.0]", lambda: Deep(r_d=[1.0]), lambda: Deep(r_d=[1.0, 1.0])),
+    ]
+    for name, fa, fb in pairs:
+        how = f"a, b differ ({name}); a == b"
+        col.cases += 1
+        col.distinct.add(how)
+        a, b = fa(), fb()
+        if bytes(a) == bytes(b):
+            continue                    # (cannot happen for the pairs above; kept so that the relation never over-asks)
+        r = guard(col, "eq", how, lambda: (a == b, a != b, b == a))
+        if r is not None and (r[0] or not r[1] or r[2]):
+            col.fail("different-messages-compare-equal", how, f"a == b: {r[0]}, a != b: {r[1]}, b == a: {r[2]}; bytes {bytes(a).hex()} / {bytes(b).hex()}")
+        # and equal ones still compare equal
+        a2 = fa()
+        r = guard(col, "eq-same", how, lambda: (a == a2, a != a2))
+        if r is not None and (not r[0] or r[1]):
+            col.fail("equal-messages-compare-unequal", how, f"a == copy: {r[0]}, a != copy: {r[1]}")
+
+
 def failing_observers(col):
     """C14 for observers that RAISE: a chain nested deeper than the interpreter's stack makes the recursive observers fail
     (RecursionError); a failed observation is still an observation - what the operands later compare equal to, encode to
@@ -1283,6 +1574,46 @@ def rel_C04(col, how, make):
                 col.fail(f"{label}-changes-the-message", how + f" [{cname}]", f"dict={d} bytes {bytes(make()).hex()} -> {bytes(b).hex()}")
             elif not same(b, make()):
                 col.fail(f"{label}-changes-observable-state", how + f" [{cname}]", f"dict={d} {norm(obs(make()))} -> {norm(obs(b))}")
+
+
+def rel_C05(col, how, make):
+    """the JSON text betterproto writes is read by the reference's parser into the same message, and the text the
+    reference writes is read by betterproto into the same message (both judged on the reference's canonical bytes)"""
+    from google.protobuf import json_format
+    m = make()
+    if m._unknown_fields or nested_unknown(m):
+        make0 = make
+        make = lambda: strip_unknown(make0())
+        m = make()
+    try:
+        want = to_ref(m)
+    except Exception as e:
+        col.fail("harness:to_ref", how, repr(e)[:200])
+        return
+    wb = want.SerializeToString(deterministic=True)
+    text = guard(col, "to_json", how, lambda: m.to_json())
+    if text is not None:
+        r = ref(type(m).__name__)()
+        try:
+            json_format.Parse(text, r)
+            if r.SerializeToString(deterministic=True) != wb:
+                col.fail("reference-reads-our-json-as-another-message", how, f"json {text[:200]} -> {r.SerializeToString(deterministic=True).hex()[:120]} expected {wb.hex()[:120]}")
+        except Exception as e:
+            col.fail("reference-rejects-our-json", how, f"{text[:200]}: {str(e)[:200]}")
+    try:
+        rtext = json_format.MessageToJson(want)
+    except Exception as e:
+        return      # the reference cannot print this value (e.g. a time outside its range): nothing to compare
+    back = guard(col, "from_json-of-reference-text", how, lambda: type(m)().from_json(rtext))
+    if back is not None:
+        r2 = ref(type(m).__name__)()
+        try:
+            r2.ParseFromString(bytes(back))
+        except Exception as e:
+            col.fail("reference-json-read-into-undecodable-message", how, repr(e)[:200])
+            return
+        if r2.SerializeToString(deterministic=True) != wb:
+            col.fail("we-read-reference-json-as-another-message", how, f"json {rtext[:200]} -> {r2.SerializeToString(deterministic=True).hex()[:120]} expected {wb.hex()[:120]}")
 
 
 def rel_C04_more(col, how, make):
@@ -1644,7 +1975,7 @@ def extra(col, name, fn):
             raise
 
 
-RELS = {"C01": rel_C01, "C02": rel_C02, "C04": rel_C04, "C06": rel_C06, "C07": rel_C07, "C08": rel_C08, "C09": rel_C09, "C10": rel_C09, "C14": rel_C14}
+RELS = {"C01": rel_C01, "C02": rel_C02, "C04": rel_C04, "C05": rel_C05, "C06": rel_C06, "C07": rel_C07, "C08": rel_C08, "C09": rel_C09, "C10": rel_C09, "C14": rel_C14}
 
 
 def main(argv=None):
@@ -1699,9 +2030,15 @@ def main(argv=None):
             extra(col, "declaration_styles", lambda: declaration_styles(col))
         if a.prop in ("C07", "C14"):
             extra(col, "copy_histories", lambda: copy_histories(col))
+        if a.prop in ("C01", "C14"):
+            extra(col, "eq_soundness", lambda: eq_soundness(col))
         if a.prop == "C14":
             extra(col, "eq_histories", lambda: eq_histories(col))
             extra(col, "failing_observers", lambda: failing_observers(col))
+        if a.prop in ("C06", "C07", "C09"):
+            extra(col, "oneof_protocol", lambda: oneof_protocol(col))
+        if a.prop in ("C02", "C06", "C07"):
+            extra(col, "oneof_wire_sequences", lambda: oneof_wire_sequences(col))
         if a.prop in ("C07", "C17"):
             extra(col, "failed_decode_states", lambda: failed_decode_states(col))
         if a.prop in ("C01", "C02", "C08", "C10", "C17"):
@@ -1710,8 +2047,11 @@ def main(argv=None):
             extra(col, "shared_state_after_copy", lambda: shared_state_after_copy(col))
         if a.prop in ("C10", "C16"):
             extra(col, "stream_kinds", lambda: stream_kinds(col))
+        if a.prop in ("C02", "C09", "C16"):
+            extra(col, "scalar_encodings_vs_reference", lambda: scalar_encodings_vs_reference(col))
         if a.prop in ("C10", "C17"):
             extra(col, "truncation_at_scale", lambda: truncation_at_scale(col, a.prop))
+            extra(col, "groups_in_frames", lambda: groups_in_frames(col))
         if a.prop in ("C01", "C02", "C08", "C09", "C10", "C17"):
             extra(col, "high_numbers", lambda: high_numbers(col, a.prop))
     if not col.samples:
